@@ -295,9 +295,14 @@ class Fn:
 
     def single_def(self, l):
         ds = self.defs.get(l, [])
-        if len(ds) == 1 and l not in self.partial_defs:
-            return ds[0]
-        return None
+        if len(ds) != 1:
+            return None
+        # a store through the pointer held in l (`(*l).f = ..`) does not redefine l itself
+        for (b, i, s) in self.partial_defs.get(l, []):
+            lhs = s["dest"] if i == "term" else s["lhs"]
+            if not (lhs[1] and lhs[1][0] == "*"):
+                return None
+        return ds[0]
 
     def src(self, l, through_ref=True, depth=0):
         """A1 copy chain.  Returns a descriptor of the unique origin of local `l`:
